@@ -393,7 +393,7 @@ def run_c30(chk):
     states = model_check(chk, "C30")
     states.sort(key=lambda s: json.dumps(s, sort_keys=True))
     log("[gen] %d terminal states exported by TLC" % len(states))
-    picked = path_cases(chk, states, 2400 if thorough else 120)
+    picked = path_cases(chk, states, 1500 if thorough else 120)
     design, tlc_lines = {}, []
     cid = 1
     for st in picked:
@@ -406,7 +406,7 @@ def run_c30(chk):
             cid += 1
     # seeded random multi-hop chains with every hostile kind, quirks included
     rnd = []
-    for _ in range(600 if thorough else 30):
+    for _ in range(300 if thorough else 30):
         k = rng.choice([1, 1, 2, 2, 3, 4, 5])
         ps = sorted(rng.sample(PATHS, k), key=PATHS.index)
         chain = []
@@ -425,7 +425,7 @@ def run_c30(chk):
     run_and_validate(chk, [("tlc-paths", tlc_lines), ("random-chains", rnd)], "inproc", design=design, shards=8 if thorough else 4)
     if thorough:
         exe = build("ephcli")
-        sub = rng.sample(tlc_lines, min(len(tlc_lines), 500)) + rng.sample(rnd, min(len(rnd), 150))
+        sub = rng.sample(tlc_lines, min(len(tlc_lines), 240)) + rng.sample(rnd, min(len(rnd), 60))
         run_and_validate(chk, [("eph-binary", sub)], "binary", exe=exe, design=design, shards=8)
     chk.assumptions += [
         "byte equality is decided by SHA-256 equality, computed with the repo's crypto::Sha256 (bound to the TLA+ reference by C08)",
@@ -450,23 +450,23 @@ def run_c31(chk):
     for st in states:
         nn.append("nodename id=%d raw=x%s" % (nid, bytes(st["name"]).hex()))
         nid += 1
-    for st in rng.sample(states, len(states) // 3):
+    for st in rng.sample(states, min(len(states) // 3, 10000)):
         nn.append("nodename id=%d raw=x%s" % (nid, bytes(vary(rng, st["name"])).hex()))
         nid += 1
-    for _ in range(20000 if thorough else 2000):
+    for _ in range(6000 if thorough else 2000):
         nn.append("nodename id=%d raw=x%s" % (nid, random_name(rng).hex()))
         nid += 1
     # CLI side: representatives of every sanitiser decision class, short names exhaustively, random long / binary names
     classes = {}
     for st in states:
         classes.setdefault(name_class(st["name"], st["outrel"]), []).append(st["name"])
-    per = 40 if thorough else 3
+    per = 20 if thorough else 3
     cli_names = []
     for k in sorted(classes):
         cli_names += rng.sample(classes[k], min(per, len(classes[k])))
-    cli_names += [st["name"] for st in states if len(st["name"]) <= (3 if thorough else 1)]
+    cli_names += [st["name"] for st in states if len(st["name"]) <= (2 if thorough else 1)]
     cli_names = [bytes(n) for n in cli_names] + [bytes(vary(rng, n)) for n in rng.sample(cli_names, len(cli_names) // 3)]
-    cli_names += list(HOSTILE_NAMES) + [random_name(rng) for _ in range(1500 if thorough else 40)]
+    cli_names += list(HOSTILE_NAMES) + [random_name(rng) for _ in range(500 if thorough else 40)]
     fl, cid = [], 1
     for n in cli_names:
         mode = rng.choice(["dir", "dir", "trail", "defdir", "cwd"])
@@ -482,7 +482,7 @@ def run_c31(chk):
     run_and_validate(chk, [("tlc-names-node", nn), ("names-cli", fl)], "inproc", shards=8 if thorough else 4)
     if thorough:
         exe = build("ephcli")
-        run_and_validate(chk, [("eph-binary-names", rng.sample(fl, min(len(fl), 600)))], "binary", exe=exe, shards=8)
+        run_and_validate(chk, [("eph-binary-names", rng.sample(fl, min(len(fl), 300)))], "binary", exe=exe, shards=8)
     chk.assumptions += [
         "created files are found by scanning the whole scratch tree of the case (the target directory sits four levels deep in it, the CLI's working directory is a "
         "sibling) plus probes of the paths the raw name would denote; a file written elsewhere on the machine is not seen",
